@@ -10,17 +10,26 @@ def crash_opts(rng):
     ])
 
 
-def history(rng, dbdir, imgdir, nops, variants, follow, max_points):
+def history(rng, dbdir, imgdir, nops, variants, follow, max_points, force_mode=None):
     opts = crash_opts(rng)
     h = Hist(rng, dbdir, opts, rng.choice([5, 14]))
     h.emit('journal on')
-    if rng.chance(1, 2):
+    mode = rng.below(4) if force_mode is None else force_mode
+    if mode == 2:
         # background flushes / compactions overlap the following calls (log switches while a compaction is in flight)
         h.emit('nowait 1')
+    elif mode == 3:
+        # only MANIFEST syncs are slow: the writer keeps filling the write buffer and switches logs while the background
+        # thread is inside ldb_versions_apply installing a flush or a compaction
+        h.emit('nowait 2')
     h.open()
     for _ in range(nops):
         k = rng.below(20)
-        if k < 13:
+        if mode == 3 and k < 13:
+            for _ in range(rng.range(6, 22)):
+                h.val_seed += 1
+                h.emit('put %s @%d~%d%s' % (proto.arg(h.key()), h.val_seed, rng.range(1500, 12000), ' sync' if rng.chance(1, 12) else ''))
+        elif k < 13:
             # mixed sync / non-sync writes; values sized so that logs rotate and tables are built within the history
             r = rng.below(10)
             sync = ' sync' if rng.chance(1, 3) else ''
